@@ -833,18 +833,27 @@ static void obsX(const XO& x, Obs& o) {
 // ---- documented preconditions, checked by the client in both worlds before the call (through the C getters in the C world).
 // Where they fail the call is skipped in both worlds: what the C++ library does on malformed meshes is C09's subject.
 template <class MG>
-static bool runsOk(const MG& g) {  // run vectors consistent: both empty, or runIndex has one more entry than runOriginalID
+static bool runsOk(const MG& g) {
+  // safe to import: both run vectors empty, or both given; if given with consistent lengths, runIndex must be monotone and within
+  // triVerts (inconsistent lengths are rejected gracefully with RunIndexWrongLength).  One vector given without the other makes the
+  // importer index runIndex by the length of runOriginalID / leave triangle references uninitialised (C09's subject).
   if (g.runIndex.empty() && g.runOriginalID.empty()) return true;
-  if (g.runIndex.size() != g.runOriginalID.size() + 1) return false;
+  if (g.runIndex.empty() || g.runOriginalID.empty()) return false;
+  if (g.runIndex.size() != g.runOriginalID.size() + 1 && g.runIndex.size() != g.runOriginalID.size()) return true;
   for (size_t i = 0; i + 1 < g.runIndex.size(); ++i)
     if (g.runIndex[i] > g.runIndex[i + 1]) return false;
   return g.runIndex.back() <= g.triVerts.size();
 }
 template <class MG>
-static bool indicesOk(const MG& g) {  // every triangle index names a vertex
+static bool indicesOk(const MG& g) {  // every triangle index and merge index names a vertex (Merge()/WriteOBJ do not check)
   if (g.numProp < 3 || g.vertProperties.size() % g.numProp) return false;
   size_t nv = g.vertProperties.size() / g.numProp;
   for (auto v : g.triVerts)
+    if ((size_t)v >= nv) return false;
+  if (g.mergeFromVert.size() != g.mergeToVert.size()) return false;
+  for (auto v : g.mergeFromVert)
+    if ((size_t)v >= nv) return false;
+  for (auto v : g.mergeToVert)
     if ((size_t)v >= nv) return false;
   return true;
 }
@@ -1486,6 +1495,65 @@ static void rowsPolygonsAndMeshes() {
           if (mask & 4) g.mergeFromVert = vec(kMergeFrom64, 1);
           if (mask & 8) g.mergeToVert = vec(kMergeTo64, 1);
           if (mask & 16) g.halfedgeTangent = vec(kTang64, 48);
+          x.out(g);
+        });
+  }
+  // two malformed option sets the importer rejects gracefully (RunIndexWrongLength, MergeIndexOutOfBounds)
+  for (int bad = 0; bad < 2; ++bad) {
+    std::string a = bad ? "mesh=seamTet,merge_from_vert=[4],merge_to_vert=[9] (out of range),others NULL"
+                        : "mesh=seamTet,run_indices=[0,6,12],run_original_ids=[7] (length 1),others NULL";
+    static uint32_t mergeToBad[] = {9};
+    static uint64_t mergeToBad64[] = {9};
+    add(NAME(manifold_meshgl_w_options), a, {}, {tMG},
+        [bad](CW& c) {
+          ManifoldMeshGLOptions o = {};
+          if (bad) {
+            o.merge_from_vert = kMergeFrom;
+            o.merge_to_vert = mergeToBad;
+            o.merge_verts_length = 1;
+          } else {
+            o.run_indices = kRunIdx;
+            o.run_indices_length = 3;
+            o.run_original_ids = kRunIds;
+            o.run_original_ids_length = 1;
+          }
+          c.out(manifold_meshgl_w_options(c.mem(tMG), kSeamV, 5, 3, kSeamT, 4, &o));
+        },
+        [bad](XW& x) {
+          MeshGL g = rawGL(kSeamV, 5, 3, kSeamT, 4);
+          if (bad) {
+            g.mergeFromVert = vec(kMergeFrom, 1);
+            g.mergeToVert = vec(mergeToBad, 1);
+          } else {
+            g.runIndex = vec(kRunIdx, 3);
+            g.runOriginalID = vec(kRunIds, 1);
+          }
+          x.out(g);
+        });
+    add(NAME(manifold_meshgl64_w_options), a, {}, {tMG64},
+        [bad](CW& c) {
+          ManifoldMeshGL64Options o = {};
+          if (bad) {
+            o.merge_from_vert = kMergeFrom64;
+            o.merge_to_vert = mergeToBad64;
+            o.merge_verts_length = 1;
+          } else {
+            o.run_indices = kRunIdx64;
+            o.run_indices_length = 3;
+            o.run_original_ids = kRunIds;
+            o.run_original_ids_length = 1;
+          }
+          c.out(manifold_meshgl64_w_options(c.mem(tMG64), kSeamV64, 5, 3, kSeamT64, 4, &o));
+        },
+        [bad](XW& x) {
+          MeshGL64 g = rawGL64(kSeamV64, 5, 3, kSeamT64, 4);
+          if (bad) {
+            g.mergeFromVert = vec(kMergeFrom64, 1);
+            g.mergeToVert = vec(mergeToBad64, 1);
+          } else {
+            g.runIndex = vec(kRunIdx64, 3);
+            g.runOriginalID = vec(kRunIds, 1);
+          }
           x.out(g);
         });
   }
@@ -2596,7 +2664,17 @@ static void judge(Ctx& c, const Prog& g, const RunOpts& o, bool leakPass) {
   if (!(d = diffObs(rc.outs, rx.outs)).empty()) c.viol(key + ":result", key + mode, "result objects differ: " + d);
   if (!(d = diffObs(rc.ins, rx.ins)).empty()) c.viol(key + ":inputs", key + mode, "input objects differ after the call: " + d);
   uint64_t h = hash_str(std::string(g.Q ? g.Q->fn : g.P->fn)) ^ rc.outs.hash() ^ (rc.scal.hash() * 3) ^ (rc.ins.hash() * 7);
-  c.distinct(h);
+  // which error codes were reached through the API (black box), by name
+  static const char* kStatusCounter[] = {"status_NoError", "status_NonFiniteVertex", "status_NotManifold", "status_VertexOutOfBounds", "status_PropertiesWrongLength",
+                                         "status_MissingPositionProperties", "status_MergeVectorsDifferentLengths", "status_MergeIndexOutOfBounds",
+                                         "status_TransformWrongLength", "status_RunIndexWrongLength", "status_FaceIDWrongLength", "status_InvalidConstruction",
+                                         "status_ResultTooLarge", "status_InvalidTangents", "status_Cancelled"};
+  for (const Obs* ob : {&rc.outs, &rc.scal})
+    for (auto& e : ob->v)
+      if (!strcmp(e.label, "status") && e.bits < (uint64_t)kNErr) c.count(kStatusCounter[e.bits]);
+  if (c.distinct(h)) c.count("states");
+  c.count("transitions", g.Q ? 2 : 1);
+  c.count("impl_traces");
   if (nontrivialObs(rc)) c.nontrivial(h);
   if (leakPass) {
     // second, discarded execution of the C side only: everything it allocates must be gone afterwards
@@ -2730,7 +2808,11 @@ int main(int argc, char** argv) {
           },
           {"enumerators"});
 
-  const std::vector<const char*> CN = {"programs", "filtered", "no_link", "objects_constructed_and_destroyed", "callback_calls", "values_compared", "leak_checks"};
+  const std::vector<const char*> CN = {"programs", "filtered", "no_link", "objects_constructed_and_destroyed", "callback_calls", "values_compared", "leak_checks", "states", "transitions", "impl_traces",
+                                       "status_NoError", "status_NonFiniteVertex", "status_NotManifold", "status_VertexOutOfBounds", "status_PropertiesWrongLength",
+                                       "status_MissingPositionProperties", "status_MergeVectorsDifferentLengths", "status_MergeIndexOutOfBounds",
+                                       "status_TransformWrongLength", "status_RunIndexWrongLength", "status_FaceIDWrongLength", "status_InvalidConstruction",
+                                       "status_ResultTooLarge", "status_InvalidTangents", "status_Cancelled"};
 
   // ---- phase pool: the seed objects themselves, built through the C API and in C++
   {
@@ -2799,7 +2881,7 @@ int main(int argc, char** argv) {
             if (P.out[o] == Q.in[j]) links.push_back({p, q, o, j});
       }
     // producer inputs: the first K entries of each pool (the deliberately asymmetric ones)
-    const int K = thorough ? 3 : 2;
+    const int K = thorough ? 64 : 2;  // thorough: every pool entry
     auto pcombos = [&](const Row& r) {
       uint64_t n = 1;
       for (Ty t : r.in) n *= std::min<size_t>(K, g_pool[t].size());
@@ -2925,30 +3007,57 @@ int main(int argc, char** argv) {
               c.describe(std::string("empty-array:") + e.fn);
               c.count("programs");
               c.distinct(idx + 1);
-              CW w;
-              int obj;
-              switch (e.which) {
-                case 0:
-                  obj = w.tmp(manifold_meshgl(w.fin(tMG), kTetV, 4, 3, kTetT, 4));
-                  break;
-                case 1:
-                  obj = w.tmp(manifold_meshgl(w.fin(tMG), kTetV, 0, 3, kTetT, 0));
-                  break;
-                case 2:
-                  obj = w.tmp(manifold_meshgl64(w.fin(tMG64), kTetV64, 4, 3, kTetT64, 4));
-                  break;
-                case 3:
-                  obj = w.tmp(manifold_meshgl64(w.fin(tMG64), kTetV64, 0, 3, kTetT64, 0));
-                  break;
-                default: {
-                  int p = psC(w, {}, false);
-                  obj = w.tmp(manifold_triangulate(w.fin(tTRI), (ManifoldPolygons*)w.objs[p].p, -1));
-                  w.kill(p);
+              // the call runs in a child process, so that a sanitizer abort is an ordinary, replayable violation of this case
+              const char* rd = getenv("VERIF_RUN_DIR");
+              std::string errPath = std::string(rd ? rd : ".") + F("/C20.ea.%d.err", (int)getpid());
+              fflush(stdout);
+              pid_t pid = fork();
+              if (pid == 0) {
+                int fd = open(errPath.c_str(), O_WRONLY | O_CREAT | O_TRUNC, 0644);
+                if (fd >= 0) dup2(fd, 2);
+                int rc = 0;
+                {
+                  CW w;
+                  int obj;
+                  switch (e.which) {
+                    case 0:
+                      obj = w.tmp(manifold_meshgl(w.fin(tMG), kTetV, 4, 3, kTetT, 4));
+                      break;
+                    case 1:
+                      obj = w.tmp(manifold_meshgl(w.fin(tMG), kTetV, 0, 3, kTetT, 0));
+                      break;
+                    case 2:
+                      obj = w.tmp(manifold_meshgl64(w.fin(tMG64), kTetV64, 4, 3, kTetT64, 4));
+                      break;
+                    case 3:
+                      obj = w.tmp(manifold_meshgl64(w.fin(tMG64), kTetV64, 0, 3, kTetT64, 0));
+                      break;
+                    default: {
+                      int p = psC(w, {}, false);
+                      obj = w.tmp(manifold_triangulate(w.fin(tTRI), (ManifoldPolygons*)w.objs[p].p, -1));
+                      w.kill(p);
+                    }
+                  }
+                  w.in.push_back(obj);
+                  e.call(w, w.buf(8));
+                  for (auto& f : w.fails) fprintf(stderr, "%s\n", f.c_str()), rc = 3;
                 }
+                _exit(rc);
               }
-              w.in.push_back(obj);
-              e.call(w, w.buf(8));
-              for (auto& f : w.fails) c.viol(std::string("empty-array:") + e.fn, e.fn, f);
+              int st = 0;
+              waitpid(pid, &st, 0);
+              std::string err;
+              if (FILE* f = fopen(errPath.c_str(), "r")) {
+                char buf[1500];
+                size_t n = fread(buf, 1, sizeof buf - 1, f);
+                buf[n] = 0;
+                err = buf;
+                fclose(f);
+                unlink(errPath.c_str());
+              }
+              if (!(WIFEXITED(st) && WEXITSTATUS(st) == 0))
+                c.viol(std::string("empty-array:") + e.fn, std::string(e.fn) + " on an object whose array has length 0",
+                       (WIFSIGNALED(st) ? F("killed by signal %d", WTERMSIG(st)) : F("exit status %d", WEXITSTATUS(st))) + "\n" + err);
             },
             {"programs"});
   }
